@@ -36,23 +36,29 @@ struct Value {
     opcodetype opcode = OP_INVALIDOPCODE;
     std::vector<uint8_t> data;
     std::string str;
+    static int bracket_balance(const std::string& s) {
+        int depth = 0;
+        for (char ch : s) depth += (ch == '[') - (ch == ']');
+        return depth;
+    }
     static std::vector<Value> parse_args(const std::vector<const char*> args) {
         std::vector<Value> result;
         std::string accum = "";
         for (auto& v : args) {
             size_t vlen = strlen(v);
             if (accum != "") {
+                // pieces of a bracketed sub-script that the shell split into several arguments
                 accum += std::string(" ") + v;
-                if (vlen > 0 && v[vlen-1] == ']') {
-                    result.emplace_back(accum.c_str(), accum.length() - 1);
+                if (bracket_balance(accum) <= 0) {
+                    result.emplace_back(accum.c_str(), accum.length());
                     accum = "";
-                    continue;
                 }
+                continue;
             }
             if (vlen > 0) {
                 // brackets embed
-                if (v[0] == '[' && v[vlen-1] != ']') {
-                    accum = &v[1];
+                if (v[0] == '[' && bracket_balance(v) > 0) {
+                    accum = v;
                     continue;
                 }
                 result.emplace_back(v, vlen);
